@@ -129,6 +129,14 @@ def evaluate(case) -> Result:
             for i in range(1, c["peers"]):
                 w.handshake_in(f"peer{i + 1}.example", auth=sorted(auth) or [4], acct=sorted(acct), ip=f"10.1.1.{i + 1}", hbh=0x900 + i)
             res.classes.append(f"other-peers-ready:{c['peers'] - 1}")
+        busy = None
+        if case.get("busy_other") and case.get("others_ready") and c["peers"] >= 2:
+            # one of the ready peers keeps the node's I/O loop busy: a watchdog request every half second, i.e.
+            # more often than the loop's wake-up interval
+            busy = [x for x in w.conns if x is not conn and x.host == "peer2.example"]
+            busy = busy[0] if busy else None
+            if busy is not None:
+                res.classes.append("other-peer-busy")
         ref = int(w.k.now)
         n_out = len(conn.refresh())
         n_req = 0
@@ -153,7 +161,16 @@ def evaluate(case) -> Result:
                 s, glued = s.split("+")
             if s in ("ADV1", "ADVT"):
                 dt = 1 if s == "ADV1" else T + c["timers"]["wakeup"] + 2
-                w.advance(dt)
+                if busy is None:
+                    w.advance(dt)
+                else:
+                    left = dt
+                    while left > 0:
+                        w.advance(min(0.5, left))
+                        left -= 0.5
+                        if left > 0 and not busy.node_closed:
+                            hbh += 1
+                            w.feed_msg(busy, {"k": "DWR", "host": "peer2.example", "hbh": 0x7000 + hbh, "e2e": 0x7000 + hbh})
             else:
                 m = make_msg(s, hbh, conn, c)
                 if s in CER_SYMS:
@@ -388,9 +405,11 @@ def install_points():
     from dv import sched, simkernel as sk
     mods = sk.load_node()
     N = mods["node"].Node
-    return sched.install({N._handle_connections: r"peer_sockets|self\.connections\.get|_list\.append|_list \+=|select\.select",
-                          N.close_connection_socket: None, N.remove_peer_connection: None, N.receive_cea: r"close_connection_socket|result_code",
-                          N.receive_cer: r"self\.connections|origin_host == cer_origin_host", N._add_peer_connection: None})
+    P = mods["peer"].PeerConnection
+    return sched.install({N._handle_connections: r"peer_sockets|self\.connections\.get|_list\.append|_list \+=|select\.select|interrupt_read|PEER_CLOSED",
+                          N.close_connection_socket: None, N.remove_peer_connection: None, N.receive_cea: r"close_connection_socket|result_code|\.close\(",
+                          N.receive_cer: r"self\.connections|origin_host == cer_origin_host", N._add_peer_connection: None,
+                          P.close: None, P.demand_attention: None})
 
 
 def cea_rejected_vs_io_loop(decisions, rc1=3010):
@@ -618,6 +637,8 @@ def shard_main(shard, nshards, tier, scale):
                     for seq in itertools.product(syms, repeat=d):
                         if valid_seq(direction, seq):
                             jobs.append({"cfg": ci, "dir": direction, "syms": list(seq), "others_ready": True})
+                            if any(x in ("ADV1", "ADVT") for x in seq):
+                                jobs.append({"cfg": ci, "dir": direction, "syms": list(seq), "others_ready": True, "busy_other": True})
     if shard == 0:
         rec.extra["enumerated_histories"] = len(jobs)
     rec.extra["enumeration_depth"] = depth
@@ -643,7 +664,7 @@ def shard_main(shard, nshards, tier, scale):
                 s = s + "+" + draw(st.sampled_from(["DWR", "DWA", "DPR", "DPA", "REQ", "ANS"]))
             out.append(s)
         return {"cfg": draw(st.integers(0, len(CONFIGS) - 1)), "dir": direction, "syms": out,
-                "seed": draw(st.integers(0, 3)), "others_ready": draw(st.booleans())}
+                "seed": draw(st.integers(0, 3)), "others_ready": draw(st.booleans()), "busy_other": draw(st.booleans())}
 
     def body(case):
         res = evaluate(case)
@@ -658,7 +679,7 @@ def run(tier, scale=1.0):
     rec = Recorder(PID)
     for d in hyp.pool_run(shard_main, (tier, scale)):
         rec.merge(d)
-    required = {"dir:in": 1, "dir:out": 1, "outcome:ready": 1, "outcome:3010": 1, "outcome:5010": 1,
+    required = {"other-peer-busy": 1, "dir:in": 1, "dir:out": 1, "outcome:ready": 1, "outcome:3010": 1, "outcome:5010": 1,
                 "outcome:rejected": 1, "outcome:timeout": 1, "noise:True": 1, "len:6": 1,
                 "schedule-exploration": 1, "cfg:auth4/configured-name-mixed-case": 1, "other-peers-ready:2": 1, "pipelined-behind-rejected-cer": 1, "pipelined-behind-rejected-cea": 1}
     return finish(rec, tier=tier, level="exploration", rule=RULE, assumptions=ASSUME, t0=t0,
